@@ -9,6 +9,7 @@ package main
 import (
 	"bufio"
 	"errors"
+	"fmt"
 	"io"
 
 	"github.com/Comcast/gots/v2/packet"
@@ -232,7 +233,7 @@ func init() {
 		}
 		acc := packet.NewAccumulator(pred)
 		outs := []Val{}
-		for _, o := range a[2].L {
+		for step, o := range a[2].L {
 			switch o.L[0].Int() {
 			case 0:
 				var pkt packet.Packet
@@ -256,14 +257,18 @@ func init() {
 				acc.Reset()
 				outs = append(outs, VL(VI(1)))
 			case 2:
+				// a long-lived caller holds on to what Bytes() returned while the accumulator goes on (stable.go)
+				keep(fmt.Sprintf("Bytes() of step %d", step), acc.Bytes())
 				b := acc.Bytes()
-				keep := append([]byte{}, b...)
+				cp := append([]byte{}, b...)
 				for i := range b {
 					b[i] ^= 0xff
 				}
 				again := acc.Bytes()
-				outs = append(outs, VL(VI(2), VB(keep), VBool(string(again) == string(keep))))
+				outs = append(outs, VL(VI(2), VB(cp), VBool(string(again) == string(cp))))
 			case 3:
+				// the list handed out and every packet in it must keep describing the packets accepted at that time
+				keepPkts(fmt.Sprintf("Packets() of step %d", step), acc.Packets())
 				ps := acc.Packets()
 				vals := make([]Val, 0, len(ps))
 				for _, p := range ps {
